@@ -378,9 +378,6 @@ static void cross_tests(std::mt19937_64& rng)
     G* raw = reinterpret_cast<G*>(p.UNSAFE_unverified());
     // (a) store of a plain value, (b) store of a tainted value
     for (int variant = 0; variant < 2; variant++) {
-      if (variant == 1 && !std::is_same_v<T, U>) {
-        break; // tainted<U> -> cell<T> with U != T is a type error by design
-      }
       RunEmitter r;
       r.path = std::string(variant == 0 ? "store-plain/" : "store-tainted/") + abi;
       r.from = tdesc<U>();
@@ -391,7 +388,9 @@ static void cross_tests(std::mt19937_64& rng)
         if (variant == 0) {
           *p = (U)x;
         } else {
-          tainted<T, Sbx> tv = (T)x;
+          // a tainted value of ANOTHER arithmetic type (e.g. the promoted result of tainted
+          // arithmetic): converted to the cell's guest type with the same range check
+          tainted<U, Sbx> tv = (U)x;
           *p = tv;
         }
         G stored = *raw;
@@ -399,6 +398,28 @@ static void cross_tests(std::mt19937_64& rng)
         r.add(x, c, (W)stored);
       }
       r.flush();
+    }
+    // (b') store of a value that itself lives in sandbox memory (tainted_volatile<U>): guest
+    // representation of U -> guest representation of T, no detour through the application type
+    {
+      using GU = typename GuestOf<Abi>::template t<U>;
+      auto q = sb.template malloc_in_sandbox<U>();
+      GU* qraw = reinterpret_cast<GU*>(q.UNSAFE_unverified());
+      RunEmitter r;
+      r.path = "store-volatile/" + abi;
+      r.from = tdesc<GU>();
+      r.to = tdesc<G>();
+      for (W x : sparse_values<GU, G>(rng, 12)) {
+        *raw = (G)0x55;
+        *qraw = (GU)x;
+        g_abort_flag = false;
+        *p = *q;
+        G stored = *raw;
+        int c = g_abort_flag ? 1 : ((W)stored == x ? 0 : 2);
+        r.add(x, c, (W)stored);
+      }
+      r.flush();
+      sb.free_in_sandbox(q);
     }
     // (c) load: the guest representation converted back to the application type
     if constexpr (std::is_same_v<T, U>) {
